@@ -450,6 +450,25 @@ Example C14_ex_apply_mask_twice :
   = Some [[0; 0; 0; 0; 0]; [0; 0; 0; 0; 0]; [0; 0; 5; 0; 0]; [0; 0; 0; 0; 0]].
 Proof. vm_compute. reflexivity. Qed.
 
+(* ---------------------------------------------------------------- Grid2D.padded_grid_from (PSF padding of a grid) *)
+(* for an odd kernel, pixel (i, j) of the padded grid carries the scaled coordinate that pixel (i - (k0-1)/2, j - (k1-1)/2)
+   has in the original frame: the pixels of the original frame keep their coordinates, any pixel scales / origin *)
+Theorem C14_padded_grid_keeps_coordinates : forall H W k0 k1 (g : @geom ROps),
+  0 < H -> 0 <= W -> Z.odd k0 = true -> Z.odd k1 = true -> 1 <= k0 -> 1 <= k1 ->
+  @padded_grid_from ROps H W (k0, k1) g =
+  map (fun p => @pixel_centre_code ROps H W g (fst p - (k0 - 1) / 2) (snd p - (k1 - 1) / 2))
+      (unmasked_coords (all_false_mask (H + k0 - 1) (W + k1 - 1))).
+Proof. exact padded_grid_keeps_coordinates. Qed.
+(* and it lists every pixel of the (H + k0 - 1) x (W + k1 - 1) frame *)
+Theorem C14_padded_grid_lists_every_pixel : forall H W k0 k1 (g : @geom ROps), 0 < H + k0 - 1 -> 0 <= W + k1 - 1 ->
+  length (@padded_grid_from ROps H W (k0, k1) g) = (Z.to_nat (H + k0 - 1) * Z.to_nat (W + k1 - 1))%nat.
+Proof. exact padded_grid_length. Qed.
+Example C14_ex_padded_grid :
+  Z.odd 3 = true /\ Z.odd 1 = true /\
+  map (fun p => (Qred (fst p), Qred (snd p))) (@padded_grid_from QOps 1 2 (3, 1) (1%Q, 1%Q, 0%Q, 0%Q))
+  = [(1%Q, (-1 # 2)%Q); (1%Q, (1 # 2)%Q); (0%Q, (-1 # 2)%Q); (0%Q, (1 # 2)%Q); ((-1)%Q, (-1 # 2)%Q); ((-1)%Q, (1 # 2)%Q)].
+Proof. vm_compute. repeat split. Qed.
+
 Print Assumptions C14_resize_is_centred_crop_or_embedding.
 Print Assumptions C14_resize_entry_formula.
 Print Assumptions C14_resize_negative_shape_raises.
@@ -493,3 +512,5 @@ Print Assumptions C14_zoom_geometry_negative_window_raises.
 Print Assumptions C14_zoom_mask_unmasked_keeps_coordinates.
 Print Assumptions C14_zoom_offsets.
 Print Assumptions C14_zoom_geometry_all_masked_raises.
+Print Assumptions C14_padded_grid_keeps_coordinates.
+Print Assumptions C14_padded_grid_lists_every_pixel.
